@@ -8,6 +8,7 @@ PACKET = Stage(
     parts={"quick": [("", 4)], "thorough": [("", 8)]},
     trace=("Trace_Packet.tla", "Trace_Packet.cfg"),
     nontrivial=lambda e: e.get("ev") not in ("NewW",),
+    behaviours={"quick": [("Gen_Packet.tla", "Gen_Packet.cfg", 300, 14)], "thorough": [("Gen_Packet.tla", "Gen_Packet.cfg", 6000, 14)]},
 )
 
 FRAME = Stage(
@@ -17,6 +18,7 @@ FRAME = Stage(
     parts={"quick": [("", 4)], "thorough": [("", 8)]},
     trace=("Trace_Frame.tla", "Trace_Frame.cfg"),
     nontrivial=lambda e: e.get("ev") in ("Decode", "DecodeB"),
+    behaviours={"quick": [("Gen_Frame.tla", "Gen_Frame.cfg", 300, 12)], "thorough": [("Gen_Frame.tla", "Gen_Frame.cfg", 6000, 12)]},
 )
 
 MSGID = Stage(
